@@ -681,7 +681,7 @@ func (p *parser) parseCallExpression(function ast.Expression) ast.Expression {
 	}
 
 	if p.peekTokenIs(token.DOT) {
-		calleeIdent := &ast.Identifier{Value: exp.Function.String()}
+		calleeIdent := &ast.Identifier{Value: exp.Function.String(), Synthetic: true}
 		p.nextToken()
 		p.nextToken()
 		parseExp := p.parseExpression(LOWEST)
@@ -738,7 +738,7 @@ func (p *parser) parseIndexExpression(left ast.Expression) ast.Expression {
 	}
 
 	if p.peekTokenIs(token.DOT) {
-		calleeIdent := &ast.Identifier{Value: left.String()}
+		calleeIdent := &ast.Identifier{Value: left.String(), Synthetic: true}
 		p.nextToken()
 		p.nextToken()
 		parseExp := p.parseExpression(LOWEST)
